@@ -14,6 +14,8 @@ def tasks(run):
 
 
 def run(run):
+    from pyvc import skeleton
+    skeleton.apply(run, 'C13')
     from pyvc import components, runner
     runner.load_contracts()
     # per-solve freshness of the class lists (F4), and values of derived objects are recomputed from the current leaf values (F6)
